@@ -15,4 +15,6 @@ import NbioVerif.Lemmas.SrcBridgeConn
 #print axioms ReadPath.c02_close_drained
 #print axioms ReadPath.c02_hup_closes
 #print axioms Gate.c02_gate_prefix_counterexample
+#print axioms FdTable.c02_attribution
+#print axioms FdTable.c02_attribution_init
 #print axioms ConnFull.src_masks_wellformed
